@@ -327,6 +327,16 @@ func FuzzC08Filter(f *testing.F) {
 
 // ---------------------------------------------------------------- deep-nesting probe
 
+// What precedes the nesting: nothing, and lexemes that a textual pre-scan for
+// "am I inside a string" can get wrong while the real lexer still sees every
+// parenthesis (quotes inside comments, strings ending in an escaped backslash
+// or holding an escaped quote or a backtick).
+var deepNestPrefixes = []string{
+	"",
+	`/*"*/`, "//\"\n", "/*`*/",
+	`attributes.d="\\" AND `, `attributes.d="\"" AND `, "attributes.d=\"a`b\" AND ", `attributes:"\\" AND attributes.e!="\\\"" AND `,
+}
+
 // TestC08DeepNest probes the stack-exhaustion class through the API in a child
 // process: CreateSubscription and UpdateSubscription with a filter of N nested
 // parentheses (inside gRPC's 4 MiB message limit). A goroutine stack overflow
@@ -345,14 +355,16 @@ func TestC08DeepNest(t *testing.T) {
 		const topic = "projects/p/topics/t"
 		_, _ = s.Pub.CreateTopic(ctx, &pubsubpb.Topic{Name: topic})
 		_, _ = s.Sub.CreateSubscription(ctx, &pubsubpb.Subscription{Name: "projects/p/subscriptions/u", Topic: topic})
-		for _, n := range depths {
-			text := strings.Repeat("(", n) + "attributes:x" + strings.Repeat(")", n)
-			_, e1 := s.Sub.CreateSubscription(ctx, &pubsubpb.Subscription{Name: fmt.Sprintf("projects/p/subscriptions/d%d", n), Topic: topic, Filter: text})
-			_, e2 := s.Sub.UpdateSubscription(ctx, &pubsubpb.UpdateSubscriptionRequest{
-				Subscription: &pubsubpb.Subscription{Name: "projects/p/subscriptions/u", Filter: text},
-				UpdateMask:   &fieldmaskpb.FieldMask{Paths: []string{"filter"}},
-			})
-			fmt.Printf("CHILD-DEPTH %d create=%v update=%v\n", n, status.Code(e1), status.Code(e2))
+		for si, pre := range deepNestPrefixes {
+			for _, n := range depths {
+				text := pre + strings.Repeat("(", n) + "attributes:x" + strings.Repeat(")", n)
+				_, e1 := s.Sub.CreateSubscription(ctx, &pubsubpb.Subscription{Name: fmt.Sprintf("projects/p/subscriptions/d%d-%d", si, n), Topic: topic, Filter: text})
+				_, e2 := s.Sub.UpdateSubscription(ctx, &pubsubpb.UpdateSubscriptionRequest{
+					Subscription: &pubsubpb.Subscription{Name: "projects/p/subscriptions/u", Filter: text},
+					UpdateMask:   &fieldmaskpb.FieldMask{Paths: []string{"filter"}},
+				})
+				fmt.Printf("CHILD-DEPTH %q+%d create=%v update=%v\n", pre, n, status.Code(e1), status.Code(e2))
+			}
 		}
 		fmt.Println("CHILD-RETURNED")
 		return
@@ -360,8 +372,8 @@ func TestC08DeepNest(t *testing.T) {
 	cmd := exec.Command(os.Args[0], "-test.run", "^TestC08DeepNest$", "-test.timeout", "300s")
 	cmd.Env = append(os.Environ(), "VERIF_CHILD=deepnest", "VERIF_STATS=")
 	out, err := cmd.CombinedOutput()
-	stats.C.EvalN(len(depths) * 2)
-	stats.C.Class("deepnest/requests", len(depths)*2)
+	stats.C.EvalN(len(depths) * 2 * len(deepNestPrefixes))
+	stats.C.Class("deepnest/requests", len(depths)*2*len(deepNestPrefixes))
 	if strings.Contains(string(out), "CHILD-INFRA") {
 		t.Fatalf("child could not boot: %s", out)
 	}
